@@ -103,7 +103,7 @@ def _body(sym, t, start):
 def _shards(tier):
     out = [{"template": t} for t in TEMPLATES]
     if tier == "quick":
-        return out + [{"template": t, "control": "Pause"} for t in ("block_sim", "nested")] + [{"template": "block_sim", "control": "Stop"}]
+        return out + [{"template": t, "control": "Pause"} for t in ("block_sim", "nested")] + [{"template": "block_sim", "control": "Stop"}, {"template": "outputs", "control": "Restart", "ctl_tick": 3}]
     from props.interp_common import TEMPLATES as INTERP_TEMPLATES
     out += [{"template": t} for t in INTERP_TEMPLATES]
     for c in ("Pause", "Hold", "Restart", "Stop"):
